@@ -36,7 +36,7 @@ def suite(wt):
 
 
 def demo(wt):
-    rc, out = sh("cargo test --offline --test seeded_demo 2>&1 | tail -40", cwd=wt)
+    rc, out = sh("cargo test --offline --test seeded_demo --features proc-macro2/span-locations 2>&1 | tail -40", cwd=wt)
     ok = "test result: ok" in out
     return ok, out
 
